@@ -14,13 +14,22 @@ import (
 	"golang.org/x/sys/unix"
 )
 
-// EnsureDirExists creates directories if the path not exists
+// EnsureDirExists creates directories if the path not exists.
+// It returns os.ErrExist if the path exists already. The parents are created
+// as needed; the Mkdir of the last component decides atomically whether this
+// call created the directory, so that concurrent callers never both succeed.
 func EnsureDirExists(path string) error {
-	if _, err := os.Stat(path); os.IsNotExist(err) {
-		verifPoint("cgroup.ensure.stat-mkdir")
-		return os.MkdirAll(path, dirPerm)
+	if err := os.MkdirAll(filepath.Dir(path), dirPerm); err != nil {
+		return err
 	}
-	return os.ErrExist
+	verifPoint("cgroup.ensure.stat-mkdir")
+	if err := os.Mkdir(path, dirPerm); err != nil {
+		if os.IsExist(err) {
+			return os.ErrExist
+		}
+		return err
+	}
+	return nil
 }
 
 // CreateV1ControllerPath create path for controller with given group, prefix
